@@ -280,4 +280,15 @@ def sgp4 (l : El α) (t : α) : V3 α × V3 α × α × Bool :=
   let (p, v) := state l c m' epw
   (p, v, m.a / c.aodp, c.isimp)
 
+/-- decay indicators of the published model at TSINCE: (a, e before clamping, e_L², r_k) in earth radii -/
+def decay (l : El α) (t : α) : α × α × α × α :=
+  let c := consts l
+  let m := mean l c t
+  let u := Num.fmod m.capu ((2 : α) * Num.pi)
+  let m' := { m with capu := u }
+  let epw := solveKepler m' 60 u
+  let (p, _) := state l c m' epw
+  let tempe := if c.isimp then l.bstar * c.c4 * t else l.bstar * c.c4 * t + l.bstar * c.c5 * (Num.sin m.xmp - c.sinmo)
+  (m.a, l.eo - tempe, m.axn * m.axn + m.ayn * m.ayn, Num.sqrt (p.x * p.x + p.y * p.y + p.z * p.z) / XKMPER)
+
 end PV.Str3
